@@ -958,6 +958,7 @@ impl World {
 				1 => "its payment secret had a bit flipped",
 				2 => "it carried the payment secret of another payment",
 				3 => "it paid less than the amount the recipient registered",
+				5 => "its payment secret had expired hours before",
 				_ => "its onion announced a larger total than the parts that were sent",
 			};
 			let msg = format!("node {} was shown pay {} ({} msat) as claimable although {}", n, pay, amount, what);
